@@ -7361,6 +7361,11 @@ func (l *Lowerer) lowerNegatedLiteral(lit *parser.Literal) (ir.ExpressionHandle,
 func (l *Lowerer) lowerCall(call *parser.CallExpr, target *[]ir.Statement) (ir.ExpressionHandle, error) {
 	funcName := call.Func.Name
 
+	// Only the outermost call of an expression statement discards its result;
+	// calls nested in its arguments have their results used.
+	isStatement := l.isStatement
+	l.isStatement = false
+
 	// Check if this is a built-in function (vec4, vec3, etc.)
 	if l.isBuiltinConstructor(funcName) {
 		return l.lowerBuiltinConstructor(funcName, call.Args, target)
@@ -7413,6 +7418,7 @@ func (l *Lowerer) lowerCall(call *parser.CallExpr, target *[]ir.Statement) (ir.E
 
 	// Check if this is an atomic function
 	if atomicFunc := l.getAtomicFunction(funcName); atomicFunc != nil {
+		l.isStatement = isStatement
 		return l.lowerAtomicCall(atomicFunc, call.Args, target)
 	}
 
@@ -7483,7 +7489,7 @@ func (l *Lowerer) lowerCall(call *parser.CallExpr, target *[]ir.Statement) (ir.E
 	// Enforce @must_use: if the function is marked @must_use and its result
 	// is discarded as a statement, emit an error.
 	// Matches Rust naga: FunctionMustUseUnused.
-	if l.funcMustUse[funcName] && l.isStatement {
+	if l.funcMustUse[funcName] && isStatement {
 		return 0, fmt.Errorf("result of @must_use function '%s' must be used", funcName)
 	}
 
@@ -14893,6 +14899,10 @@ func (l *Lowerer) lowerAtomicCall(atomicFunc ir.AtomicFunction, args []parser.Ex
 		return 0, fmt.Errorf("atomic function requires at least 2 arguments")
 	}
 
+	// The flag describes this call only, not calls nested in its arguments.
+	isStatement := l.isStatement
+	l.isStatement = false
+
 	// First argument is a pointer (passed with &)
 	pointer, err := l.lowerExpression(args[0], target)
 	if err != nil {
@@ -14914,7 +14924,7 @@ func (l *Lowerer) lowerAtomicCall(atomicFunc ir.AtomicFunction, args []parser.Ex
 	// Matches Rust naga: SHADER_INT64_ATOMIC_MIN_MAX support means
 	// 64-bit min/max never have result handles, while 32-bit atomics always do.
 	is64BitMinMax := false
-	if l.isStatement {
+	if isStatement {
 		switch atomicFunc.(type) {
 		case ir.AtomicMin, ir.AtomicMax:
 			// Check if the pointed-to type is 64-bit
